@@ -315,6 +315,8 @@ impl RecvSide {
 }
 
 struct CTask {
+    /// "Expect: 100-continue": the body is not sent before an interim response arrived
+    gate: bool,
     send: SendSide,
     rf: Option<h2::client::ResponseFuture>,
     interim_got: usize,
@@ -324,6 +326,8 @@ struct CTask {
     was_reset: bool,
 }
 struct STask {
+    /// the final response is sent only after the whole request body was read (the interim ones at once)
+    gate: bool,
     recv: RecvSide,
     resp: Option<h2::server::SendResponse<Bytes>>,
     send: SendSide,
@@ -422,6 +426,7 @@ pub fn run(seed: u64, mode: &str) -> String {
     };
     let cfg = format!("seed={} mode={} ciw={} siw={} mcs={} sbuf={} nreq={} ending={:?}:{} pipes={}", seed, mode, ciw, siw, mcs, sbuf, nreq, ending_at, ending_kind, pipes);
     let mut viol: Vec<String> = vec![];
+    let mut lingering: Vec<Box<dyn std::any::Any>> = vec![];
     loop {
         steps += 1;
         if steps > 3_000_000 {
@@ -494,6 +499,12 @@ pub fn run(seed: u64, mode: &str) -> String {
             (0..f.len()).filter(|i| f[*i]).collect()
         };
         if ready.is_empty() {
+            // quiescent: drop one of the handles that were kept beyond their stream's reset; dropping the last
+            // reference of an idle client connection has to wake the connection task (C19)
+            if let Some(h) = lingering.pop() {
+                drop(h);
+                continue;
+            }
             break;
         }
         let id = *rng.pick(&ready);
@@ -580,6 +591,7 @@ pub fn run(seed: u64, mode: &str) -> String {
                             let tid = 100 + stasks.len() * 2 + 1;
                             let reset_at = if chaos && rng.chance(1, 5) { Some(steps + rng.below(400)) } else { None };
                             stasks.push(STask {
+                                gate: resps[k].interim >= 1 && (seed as usize + k) % 2 == 0,
                                 recv: RecvSide { body: Some(b), tag: 2 * k, msg: reqs[k].clone(), got: 0, data_done: false },
                                 resp: Some(resp),
                                 send: SendSide { ss: None, tag: 2 * k + 1, msg: resps[k].clone(), sent: 0, requested: false, chunk: *rng.pick(&[1usize, 100, 16384, 100000]), finished: false },
@@ -638,6 +650,7 @@ pub fn run(seed: u64, mode: &str) -> String {
                             let tid = 100 + ctasks.len() * 2;
                             let reset_at = if chaos && rng.chance(1, 5) { Some(steps + rng.below(400)) } else { None };
                             ctasks.push(CTask {
+                                gate: resps[k].interim >= 1 && (seed as usize + k) % 2 == 0,
                                 send: SendSide { ss: Some(ss), tag: 2 * k, msg: reqs[k].clone(), sent: 0, requested: false, chunk: *rng.pick(&[1usize, 100, 16384, 100000]), finished: false },
                                 rf: Some(rf),
                                 interim_got: 0,
@@ -675,22 +688,36 @@ pub fn run(seed: u64, mode: &str) -> String {
                         ss.send_reset(h2::Reason::CANCEL);
                     }
                     t.send.ss = None;
+                    // now and then a handle of the reset stream outlives the reset: it is dropped when
+                    // everything else has come to rest (see `lingering` below)
+                    if (seed as usize + k) % 3 == 0 {
+                        if let Some(h) = t.rf.take() {
+                            lingering.push(Box::new(h));
+                        }
+                        if let Some(h) = t.recv.body.take() {
+                            lingering.push(Box::new(h));
+                        }
+                    }
                     t.rf = None;
                     t.recv.body = None;
                     t.st = St::Aborted("reset by the client application".into());
                     continue;
                 }
             }
-            // send side
-            match t.send.pump(&mut cx) {
-                Ok(_) => {}
-                Err(e) => {
-                    if e.starts_with("C16") {
-                        t.st = St::Bad(e);
-                        continue;
+            // send side (a gated exchange waits for the first interim response, as an application that sent
+            // "Expect: 100-continue" does)
+            let waiting_for_interim = t.gate && t.interim_got == 0 && t.rf.is_some();
+            if !waiting_for_interim {
+                match t.send.pump(&mut cx) {
+                    Ok(_) => {}
+                    Err(e) => {
+                        if e.starts_with("C16") {
+                            t.st = St::Bad(e);
+                            continue;
+                        }
+                        t.send.ss = None; // the peer reset / refused / the connection ended
+                        t.send.finished = false;
                     }
-                    t.send.ss = None; // the peer reset / refused / the connection ended
-                    t.send.finished = false;
                 }
             }
             // interim + final response
@@ -727,6 +754,9 @@ pub fn run(seed: u64, mode: &str) -> String {
                     }
                     Poll::Pending => {}
                 }
+            }
+            if waiting_for_interim && t.interim_got > 0 && t.st == St::Run {
+                set_flag(&flags, id); // the go-ahead arrived: come back and send the body
             }
             if t.rf.is_none() && t.st == St::Run {
                 match t.recv.pump(&mut cx) {
@@ -776,19 +806,22 @@ pub fn run(seed: u64, mode: &str) -> String {
                         Err(_) => break,
                     }
                 }
-                let mut rb = http::Response::builder().status(200);
-                for (n, v) in &t.send.msg.headers {
-                    rb = rb.header(n.as_str(), v.as_str());
-                }
-                match t.resp.as_mut().unwrap().send_response(rb.body(()).unwrap(), false) {
-                    Ok(ss) => {
-                        t.send.ss = Some(ss);
-                        t.responded = true;
+                let hold = t.gate && t.recv.body.is_some() && t.interim_sent > 0;
+                if !hold {
+                    let mut rb = http::Response::builder().status(200);
+                    for (n, v) in &t.send.msg.headers {
+                        rb = rb.header(n.as_str(), v.as_str());
                     }
-                    Err(e) => {
-                        t.st = St::Aborted(format!("respond {:?}", e.reason()));
-                        t.recv.body = None;
-                        continue;
+                    match t.resp.as_mut().unwrap().send_response(rb.body(()).unwrap(), false) {
+                        Ok(ss) => {
+                            t.send.ss = Some(ss);
+                            t.responded = true;
+                        }
+                        Err(e) => {
+                            t.st = St::Aborted(format!("respond {:?}", e.reason()));
+                            t.recv.body = None;
+                            continue;
+                        }
                     }
                 }
             }
@@ -805,7 +838,9 @@ pub fn run(seed: u64, mode: &str) -> String {
             }
             match t.recv.pump(&mut cx) {
                 Ok(Some(_)) => {
-                    if t.send.ss.is_none() {
+                    if !t.responded {
+                        set_flag(&flags, id); // the request is complete: come back and answer it
+                    } else if t.send.ss.is_none() {
                         t.resp = None;
                         t.st = St::Done;
                     }
